@@ -15,7 +15,7 @@
    ADD_PROVIDER send). *)
 From Coq Require Import List NArith Bool.
 From V.gen Require Consts.
-From V.C16 Require Import Model Proofs Obl Bound.
+From V.C16 Require Import Model Proofs Obl Bound Chan.
 Import ListNotations.
 Open Scope N_scope.
 
@@ -157,6 +157,32 @@ Theorem C16_fair_terminates :
    (started q (es0 ++ es1) <= 1)%nat).
 Proof. exact fair_terminates. Qed.
 Print Assumptions C16_fair_terminates.
+
+(* await points inside the handlers: with an event channel of `cap` slots towards the KademliaHandle
+   (`brun`: the loop takes an event only when it is not parked in a handler; `BRecv` = the user
+   receives one event) nothing is lost, duplicated or reordered — what the user has received, then
+   the channel, then the backlog of the parked handler is exactly the event sequence of the
+   unbounded loop on the events that were really taken — the state is that loop's state, the
+   channel never exceeds its capacity, and the loop is parked only while the channel is full *)
+Theorem C16_bounded_channel :
+  forall g m cap es,
+  let b' := fst (brun g cap (b0 m) es) in
+  let rcv := snd (brun g cap (b0 m) es) in
+  let tk := taken g cap (b0 m) es in
+  b_st b' = fst (run g (st0 m) tk) /\
+  rcv ++ b_chan b' ++ b_back b' = filter is_event (snd (run g (st0 m) tk)) /\
+  (length (b_chan b') <= cap)%nat /\ (b_back b' <> [] -> length (b_chan b') = cap).
+Proof. exact bounded_channel. Qed.
+Print Assumptions C16_bounded_channel.
+
+(* and the user can always drain it: after |channel| + |backlog| receives everything has arrived *)
+Theorem C16_channel_drains :
+  forall g cap n b,
+  (1 <= cap)%nat -> bwf cap b -> (length (flight b) <= n)%nat ->
+  flight (fst (brun g cap b (repeat BRecv n))) = [] /\
+  snd (brun g cap b (repeat BRecv n)) = flight b.
+Proof. exact drain_all. Qed.
+Print Assumptions C16_channel_drains.
 
 (* the shipped parallelism factor and executor timeouts satisfy what is assumed above *)
 Theorem C16_default_config :
